@@ -245,8 +245,12 @@ def coq_case(proj, suppress, line):
     return term, info
 
 
-HANG_LIMIT = 20.0     # seconds without an answer for ONE project before the harness is declared hung on it
-MAX_HANGS = 6         # after that many hung projects the rest of the batch is not run (counted, not judged)
+HANG_LIMIT = 10.0     # seconds without an answer for ONE project (they take milliseconds) before the harness is
+                      # declared hung on it; the suspect is then re-run alone with CONFIRM_LIMIT
+CONFIRM_LIMIT = 8.0
+MAX_HANGS = 3         # after that many hung projects in this run the remaining projects are not run (counted, not
+                      # judged): the verdict is a violation already and every further hang costs the limits again
+_hangs_seen = [0]
 
 
 def _stream(exe, dirs, mode, limit):
@@ -297,11 +301,11 @@ def run_harness(exe, dirs, mode="merge", timeout=900, hang_limit=None):
     project on which the process dies gets PANIC (abort / stack overflow are not unwinding panics).  After MAX_HANGS
     hung projects the remaining ones get NOTRUN."""
     limit = hang_limit or HANG_LIMIT
+    counted = hang_limit is None           # shrinking passes its own limit and is not counted
     out = []
     todo = list(dirs)
-    hangs = 0
     while todo:
-        if hangs >= MAX_HANGS:
+        if counted and _hangs_seen[0] >= MAX_HANGS:
             out += ["NOTRUN"] * len(todo)
             break
         lines, status = _stream(exe, todo, mode, limit)
@@ -310,12 +314,13 @@ def run_harness(exe, dirs, mode="merge", timeout=900, hang_limit=None):
         if status == "done" or not todo:
             break
         # the first project left is the suspect: confirm alone, in a fresh process
-        l1, st1 = _stream(exe, todo[:1], mode, limit)
+        l1, st1 = _stream(exe, todo[:1], mode, min(limit, CONFIRM_LIMIT))
         if st1 == "done":
             out.append(l1[0])
         elif st1 == "hang":
             out.append("HANG")
-            hangs += 1
+            if counted:
+                _hangs_seen[0] += 1
         else:
             out.append("PANIC")
         todo = todo[1:]
@@ -425,16 +430,33 @@ def shrink(ctx, exe, meta, fn):
     """greedy: drop top-level keys (from every file) and locales while the check still answers 3"""
     p = json.loads(json.dumps(meta["project"]))
     hung = meta["impl"].get("kind") == "hang"
-    budget = 16 if hung else 40          # every attempt that still hangs costs the hang limit
+    budget = 12 if hung else 40          # every attempt that still hangs costs the hang limit
 
     def still_fails(q):
         nonlocal budget
         budget -= 1
         try:
-            _, codes = evaluate(ctx, exe, [("shrink", q)], meta["suppress"], "shrink", fn, hang_limit=6.0 if hung else None)
+            _, codes = evaluate(ctx, exe, [("shrink", q)], meta["suppress"], "shrink", fn, hang_limit=4.0 if hung else None)
         except core.Infra:
             return False
         return bool(codes) and codes[0] == 3
+    # first pass: one top-level key of the default alone (fast when the reduced project is fine)
+    dkeys = sorted({(ns, k) for ns in (p["namespaces"] or ["-"]) for k in p["files"]["%s/%s" % (ns, p["default"])][1]})
+    if len(dkeys) > 1:
+        saved, budget = budget, min(40, len(dkeys))
+        for ns0, k in dkeys:
+            if budget <= 0:
+                break
+            q = json.loads(json.dumps(p))
+            for name, t in q["files"].items():
+                keep = name.split("/")[0] == ns0
+                for kk in list(t[1]):
+                    if not (keep and kk == k):
+                        del t[1][kk]
+            if still_fails(q):
+                p = q
+                break
+        budget = saved
     changed = True
     while changed and budget > 0:
         changed = False
